@@ -326,10 +326,26 @@ swap()
 spread()
 print(a, b, %(X)s)
 '''
+# a global that lives across input() calls at top level and inside a function (round 16: C10-I, input() through a nameless `read`, which
+# leaves the line in the shell variable REPLY - a user variable of that name is overwritten by every input())
+ROLE_TEMPLATES["global-string-across-input"] = '''%(X)s := "hello"
+who := input()
+print(%(X)s, who)
+func ask() string {
+	return input("sure? ")
+}
+a := ask()
+print(a, %(X)s)
+%(X)s = %(X)s + "!"
+b := input()
+print(%(X)s, b)
+'''
+ROLE_STDIN = {"global-string-across-input": b"world\nyes\nlast\n"}
 ROLE_REGIONS = {"global-beside-function-multi-assignment": r"_rv\d+"}
 ROLE_EXPECTED = {
     "global-beside-function-multi-assignment": ["3 6 7"],
     "global-string-empty": ["[] []", "x 1"],
+    "global-string-across-input": ["hello world", "yes hello", "hello! last"],
     "global-scalar": ["0 0 6", "2 0 6", "0 1", "1 2", "2 3", "3 0", "4 9", "6 3 5 el h 5 k! 4 3 0"],
     "global-slice": ["0 a", "1 b", "2 ", "3 z", "4 2 el 6 k! b |"],
     "local": ["0 6 6 7", "16 k!"],
@@ -543,6 +559,7 @@ def run(res, b, tier, seed):
                 known = is_reserved(nm) and in_region(nm, "X", {"X"} if role in ("local", "param") else set(), {"X"} if role == "function" else set())
             cases.append(pipeline.Case("role-%s-%d" % (role, i), {"main.tsh": rsrc.encode()},
                                        meta=dict(expected_out=ROLE_EXPECTED[role], expected_status=0, src=rsrc, original=t % dict(X="neutralname"),
+                                                 stdin=ROLE_STDIN.get(role, b""),
                                                  renaming="the identifier X of the role program (%s) spelled %s" % (role, nm),
                                                  reserved=[nm] if is_reserved(nm) else [], reserved_known=[nm] if known else [])))
     dis, fails = semcheck.check_cases(b, cases, stages="asw")
